@@ -71,7 +71,13 @@ CallStart(r) ==
   /\ cpc[r] = "idle" /\ cpc' = [cpc EXCEPT ![r] = "calling"]
   /\ sawFail' = [sawFail EXCEPT ![r] = FALSE]          \* arrived := time.Now()
   \* issued when the endpoint is up and every earlier connection is known dead: the client owes it a fresh connection
-  /\ issuedAfterDead' = IF up = "up" /\ nconn >= 1 /\ (\A k \in 1..nconn : lclosed[k]) THEN issuedAfterDead \cup {r} ELSE issuedAfterDead
+  \* ... and likewise when the connection in use is healthy (neither side has closed it) and every other one that the server
+  \* closed is known to be dead: "a connection loss never makes a later healthy connection be treated as closed" -- the late
+  \* report of an old connection's receiver or sender must not cost a call on the healthy one its answer
+  /\ issuedAfterDead' = IF up = "up" /\ nconn >= 1 /\ (\/ (\A k \in 1..nconn : lclosed[k])
+                                                        \/ (/\ ~isClosed /\ cur # 0 /\ ~lclosed[cur] /\ ~pclosed[cur]
+                                                            /\ (\A j \in 1..nconn : pclosed[j] => lclosed[j])))
+                      THEN issuedAfterDead \cup {r} ELSE issuedAfterDead
   /\ UNCHANGED <<isClosed, cur, nconn, lclosed, pclosed, connDone, spc, sm, rpc, sendQ, failQ, recvq, srvGot, replied, wroteDead, dialHealthy, srvvars, lastDialErr, ssaw>>
 ReConnectDial(r) ==
   /\ cpc[r] = "calling" /\ isClosed /\ nconn < MaxConn /\ CanConnect /\ DialEffect
